@@ -66,11 +66,17 @@ def _run(ctx, case, net):
     hostile = case["hostile"]
     ids = case["ids"]
     master = net.add("mesh", ("id", 0), profile=case["profiles"]["0"])
+    cbcount = [0]
     joiners = {}
     for k in ids:
         nn = net.add(case["cls"][str(k)], ("id", k), profile=case["profiles"][str(k)])
         if k in case["no_children"]:
             nn.obj.allow_children = False
+        if k % 2:
+            # the documented hook that is called while the node blocks in renew / lookups
+            def cb(k=k):
+                cbcount[0] += 1
+            nn.obj.block_less_callback = cb
         joiners[k] = nn
     fake = {}
     if case.get("deep"):
@@ -325,6 +331,7 @@ def _run(ctx, case, net):
         W.World.unbind()
     ctx.clause("master_table_invariant", tinv["n"])
     ctx.count("baton_switches", world.n_switches)
+    ctx.count("block_less_callbacks", cbcount[0])
     ctx.count("air_packets", len(net.air.log))
     ctx.distinct("air_order_digests", net.air_digest())
     for st in net.radio_states():
